@@ -38,29 +38,21 @@ Theorem C17_closure_call_slices_in_bounds :
 Proof. exact @closure_call_slices_in_bounds. Qed.
 Print Assumptions C17_closure_call_slices_in_bounds.
 
-(* Port table.  Full statement (false): for every state and redirection,
-   redir_exec does not panic.  Proved: for destinations 0 <= fd < limit and
-   source fds >= -1 (any sequence of redirections, any starting table). *)
+(* Port table.  Any sequence of redirections on any starting table, with any
+   destination and source fds -- negative ones included (they are the
+   invalid-fd exception) -- does not panic, as long as the destination is below
+   the allocation limit.  The full statement without that bound is false:
+   growAccess allocates fd+1 slots (C17_port_huge_fd_refuted, a known finding). *)
 Theorem C17_port_table_no_panic_partial : forall limit rs st,
   2 <= limit -> Forall (redir_ok limit) rs -> is_panic (redirs_exec limit st rs) = false.
 Proof. intros limit rs st. exact (redirs_exec_no_panic limit rs st). Qed.
 Print Assumptions C17_port_table_no_panic_partial.
 
-Theorem C17_port_negative_fd_refuted :
-  exists limit st r, 2 <= limit /\ redir_exec limit st r = Panic PIndex.
-Proof. exact port_negative_fd_refuted. Qed.
-Print Assumptions C17_port_negative_fd_refuted.
-
-(* every negative destination fd panics *)
-Theorem C17_port_negative_dst_always_panics : forall limit st z m s,
-  z < 0 -> redir_exec limit st (mkRedir (Some (FdNum z)) m s) = Panic PIndex.
-Proof. exact port_negative_dst_all. Qed.
-Print Assumptions C17_port_negative_dst_always_panics.
-
-Theorem C17_port_negative_src_fd_refuted :
-  exists limit st r, 2 <= limit /\ redir_exec limit st r = Panic PIndex.
-Proof. exact port_negative_src_fd_refuted. Qed.
-Print Assumptions C17_port_negative_src_fd_refuted.
+(* negative fds are exceptions, not crashes *)
+Theorem C17_port_negative_dst_is_exception : forall limit st z m s,
+  z < 0 -> redir_exec limit st (mkRedir (Some (FdNum z)) m s) = Err EInvalidFD.
+Proof. exact port_negative_dst_is_exception. Qed.
+Print Assumptions C17_port_negative_dst_is_exception.
 
 Theorem C17_port_huge_fd_refuted :
   exists limit st r, 2 <= limit /\ redir_exec limit st r = Panic PMakeSlice.
@@ -69,7 +61,7 @@ Print Assumptions C17_port_huge_fd_refuted.
 
 (* A whole pipeline form (redirections, then the end-of-form bookkeeping of
    pipelineOp.exec).  Proved for forms that, when their input is a pipe, do not
-   redirect fd 0; refuted otherwise (`echo a | cat <file`). *)
+   redirect fd 0; refuted otherwise (`echo a | cat <file`; a known finding). *)
 Theorem C17_form_no_panic_partial : forall limit ip op rs,
   2 <= limit -> Forall (redir_ok limit) rs ->
   (ip = true -> Forall leaves_stdin rs) ->
@@ -89,48 +81,25 @@ Theorem C17_pipeline_stdin_close_refuted :
 Proof. exact pipeline_stdin_close_refuted. Qed.
 Print Assumptions C17_pipeline_stdin_close_refuted.
 
-(* Frame.Port (used by file:is-tty) *)
-Theorem C17_frame_port_no_panic_partial : forall ports i,
-  0 <= i -> is_panic (frame_port ports i) = false.
-Proof. exact frame_port_no_panic_partial. Qed.
-Print Assumptions C17_frame_port_no_panic_partial.
+(* Frame.Port (used by file:is-tty): every index, negative ones included *)
+Theorem C17_frame_port_no_panic : forall ports i, is_panic (frame_port ports i) = false.
+Proof. exact frame_port_no_panic. Qed.
+Print Assumptions C17_frame_port_no_panic.
 
-Theorem C17_frame_port_negative_refuted : exists ports i, frame_port ports i = Panic PIndex.
-Proof. exact frame_port_negative_refuted. Qed.
-Print Assumptions C17_frame_port_negative_refuted.
+(* math:pow with exact operands: every base and exponent *)
+Theorem C17_pow_no_panic : forall bn bd e, 0 < bd -> is_panic (pow_exact bn bd e) = false.
+Proof. exact pow_no_panic. Qed.
+Print Assumptions C17_pow_no_panic.
 
-(* math:pow with exact operands.  Full statement (false): no panic for every
-   base and exponent.  Proved: base <> 0 or exponent >= 0. *)
-Theorem C17_pow_no_panic_partial : forall bn bd e,
-  0 < bd -> (bn <> 0 \/ 0 <= e) -> is_panic (pow_exact bn bd e) = false.
-Proof. exact pow_no_panic_partial. Qed.
-Print Assumptions C17_pow_no_panic_partial.
+Theorem C17_pow_zero_neg_is_exception : forall bd e, e < 0 -> pow_exact 0 bd e = Err EBadValue.
+Proof. exact pow_zero_neg_is_exception. Qed.
+Print Assumptions C17_pow_zero_neg_is_exception.
 
-Theorem C17_pow_zero_neg_refuted :
-  exists bn bd e, 0 < bd /\ pow_exact bn bd e = Panic PDivZero.
-Proof. exact pow_zero_neg_refuted. Qed.
-Print Assumptions C17_pow_zero_neg_refuted.
-
-(* and it is exactly that region: zero to any negative integer power panics *)
-Theorem C17_pow_zero_neg_always_panics : forall bd e, e < 0 -> pow_exact 0 bd e = Panic PDivZero.
-Proof. exact pow_zero_neg_all. Qed.
-Print Assumptions C17_pow_zero_neg_always_panics.
-
-(* strutil.HasSubseq (edit:match-subseq).  Full statement (false): no panic for
-   every candidate s and seed t.  Proved: every candidate that is valid UTF-8,
-   whatever the seed (uses the width lemma of the decoder: a decoded rune other
-   than the width-1 error is as wide as its encoding). *)
-Theorem C17_has_subseq_no_panic_partial : forall s t,
-  Utf8.valid s = true -> is_panic (go_has_subseq s t) = false.
-Proof. exact go_has_subseq_no_panic_partial. Qed.
-Print Assumptions C17_has_subseq_no_panic_partial.
-
-(* strutil.HasSubseq (edit:match-subseq) slices past the end when the seed's
-   U+FFFD (from an invalid byte, or written literally) matches an invalid byte
-   near the end of the candidate *)
-Theorem C17_has_subseq_invalid_utf8_refuted : exists s t, go_has_subseq s t = Panic PSlice.
-Proof. exact has_subseq_invalid_utf8_refuted. Qed.
-Print Assumptions C17_has_subseq_invalid_utf8_refuted.
+(* strutil.HasSubseq (edit:match-subseq): every candidate and seed, as byte
+   strings -- valid UTF-8 or not (uses the width lemma of the decoder) *)
+Theorem C17_has_subseq_no_panic : forall s t, is_panic (go_has_subseq s t) = false.
+Proof. exact go_has_subseq_no_panic. Qed.
+Print Assumptions C17_has_subseq_no_panic.
 
 (* the oracle demands exactly "ended normally or with an Elvish exception" *)
 Theorem C17_oracle_sound : forall (A : Type) (o : obs A), check_C17 o = true -> o <> OCrash.
@@ -174,3 +143,9 @@ Proof. reflexivity. Qed.
 
 Example C17_ex_pow : pow_exact 2 3 (-3) = Ok (27, 8).
 Proof. reflexivity. Qed.
+
+(* the inputs that used to crash HasSubseq *)
+Example C17_ex_subseq :
+  go_has_subseq [255%N] [255%N] = Ok true
+  /\ go_has_subseq [97%N; 195%N] [239%N; 191%N; 189%N] = Ok true.
+Proof. exact has_subseq_former_witnesses. Qed.
